@@ -18,7 +18,7 @@ RULE = ("random lint-clean acyclic circuits <= 16 nodes: every gate type x arity
 EXPLANATION = ("writer model at AST level (orders read off the emitted text and validated as permutations) composed with the reader "
                "model of C02; the round-trip property is decided by the Coq specification on the recorded read-back circuits")
 SHARD = 40
-HASHSEEDS = {"quick": [0, 1], "thorough": [0, 1, 2, 3, 4, 5, 6, 7]}
+HASHSEEDS = {"quick": [0, 1], "thorough": [0, 1, 2, 3]}
 
 PLAIN = ["a", "b", "c", "d", "e", "f", "h", "i0", "i1", "n_1", "w2", "q", "r", "s", "t", "u", "v", "y", "z", "k1", "k2", "m"]
 TRICKY = ["g_0", "g_1", "g_2", "g_3", "g_4", "g_2_0", "not_a", "and_a_b", "or_a_b", "xor_a_b", "not_b", "and_b_a", "tie_0", "tie_1", "tie_x",
@@ -102,7 +102,7 @@ def gen_circuit(rng, exhaustive=None):
 
 
 def generate(rng, tier):
-    n = 110 if tier == "quick" else 1200
+    n = 110 if tier == "quick" else 500
     out = []
     # every gate type x arity 1..4, both styles
     for t in lib.MULTI:
